@@ -95,45 +95,122 @@ def i_is_explored(nb, acc):
     return canon(nb, s["rv"]["op"]).startswith("explored(arg1.tree")
 
 
-def directive_pass_table(prog, rep, R, pf):
-    """One iteration of parse_file's pass over all tokens, as a decision table: a CompilerDirective and every kind of
-    ConditionalDirective gets exactly one LocalLogicalLine (of its own type, holding this token's index) unless the token was
-    attributed to a line by next_token; no other token gets one; no other condition decides."""
+def _directive_pass_sites(prog, pf):
+    """Bodies that build the lines of unattributed directive tokens: parse_file itself, a free function of the parser module it calls
+    directly, or a closure of either -- whichever contains a LocalLogicalLine aggregate."""
+    cands = [pf] + list(prog.closures_of(pf.npath))
+    for c in pf.calls():
+        cal = prog.body(c.callee) if c.callee else None
+        if cal is not None and cal.npath.startswith(P) and "InternalDelphiLogicalLineParser" not in cal.npath and cal.npath != pf.npath and cal not in cands:
+            cands += [cal] + list(prog.closures_of(cal.npath))
+    out = []
+    for b in cands:
+        if any(s["k"] == "assign" and s["rv"]["k"] == "aggregate" and s["rv"].get("agg") == "adt" and norm(s["rv"].get("adt", "")).endswith("LocalLogicalLine")
+               for _, _, s in b.stmts()):
+            out.append(b)
+    return out
+
+
+def _tokens_source_ok(prog, pf, owner, src):
+    """`src` (canonical text inside `owner`) is `enumerate(iter(<tokens>))`, optionally filtered, where <tokens> is parse_file's token slice."""
     import re as _re
-    pushes = [c for c in pf.calls() if c.callee == "alloc::vec::Vec::push" and "LocalLogicalLine" in pf.locals[c.args[1]["place"]["l"]]["ty"]] if True else []
-    loops = [(h, L) for h, L in pf.loops().items() if any(c.bb in L for c in pushes)]
-    loops.sort(key=lambda x: len(x[1]))
-    if not rep.check(bool(pushes) and bool(loops), R, "anchor:directive-pass", "parse_file has no loop that pushes LocalLogicalLine values for directive tokens"):
+    m = _re.match(r"^(?:into_iter\()?(filter\()?enumerate\(iter\(arg(\d+)\)\)(,closure\{.*\}\))?\)?$", src)
+    if not m:
+        return None
+    k = int(m.group(2))
+    if owner.npath == pf.npath:
+        return m if k == 1 else None
+    sites = [c for c in pf.calls() if c.callee == owner.npath]
+    if len(sites) != 1 or len(sites[0].args) < k:
+        return None
+    a = canon(pf, sites[0].args[k - 1])
+    return m if a in ("arg1", "&arg1", "&*arg1", "*arg1") or _re.match(r"^(deref\()?arg1\)?$", a) else None
+
+
+def directive_pass_table(prog, rep, R, pf):
+    """One step of parse_file's pass over all tokens, as a decision table: a CompilerDirective and every kind of
+    ConditionalDirective gets exactly one LocalLogicalLine (of its own type, holding this token's index) unless the token was
+    attributed to a line by next_token; no other token gets one; no other condition decides.  The pass may be a loop that pushes the
+    lines (in parse_file or in a function it calls) or a `filter_map` closure over the enumerated tokens whose result is collected."""
+    import re as _re
+    sites = _directive_pass_sites(prog, pf)
+    if not rep.check(len(sites) == 1, R, "anchor:directive-pass", "expected exactly one body reachable directly from parse_file that builds LocalLogicalLine values for directive tokens, found %s" % [short(b.npath) for b in sites]):
         return
-    h, L = loops[0]
-    nx = [c for c in pf.calls() if c.bb == h and (c.callee or "").endswith("Iterator::next")]
-    if not rep.check(len(nx) == 1, R, "anchor:directive-pass-iterator", "the directive pass is not driven by a single Iterator::next"):
-        return
-    src = canon(pf, nx[0].args[0])
-    m = _re.match(r"^into_iter\((filter\()?enumerate\(iter\(arg1\)\)(,closure\{.*\}\))?\)$", src)
-    rep.check(bool(m), R, "directive-pass-over-all-tokens", "the directive pass iterates %s instead of every (index, token) of the token slice (optionally filtered by `!attributed_directives.contains(index)`)" % src,
-              instance={"iterates": "tokens.iter().enumerate()" + (".filter(!attributed)" if m and m.group(1) else "")})
-    if m and m.group(1):
-        fl = [b for b in prog.closures_of(P + "parse_file") if any(c.callee == "std::collections::hash::set::HashSet::contains" for c in b.calls())]
-        ok = len(fl) == 1
-        if ok:
-            t = Table(prog, fl[0])
-            ok = all((res.kind == "sym" and str(res.a).startswith("!")) or (res.kind == "const") for _, res in t.rows) and len(t.rows) == 1
-        rep.check(ok, R, "directive-filter=!attributed", "parse_file no longer filters the directive pass by `!attributed_directives.contains(index)`")
-    sw = nx[0].t["target"]
-    tt = pf.blocks[sw]["term"]
-    some = ([tb for v, tb in tt["targets"] if v == 1] or [tt["otherwise"]])[0]
-    try:
-        tb = Table(prog, pf, start=some, stop={h}, inline=1)
-    except TooComplex as e:
-        rep.fail(R, "directive-pass-table", "one iteration of the directive pass is not a loop-free classifier: %s" % e)
-        return
+    site = sites[0]
+    rows = None      # [(constraints, [rendered line]...)]
+    filtered = False
+    if site.kind == "Closure":
+        owner = prog.body(site.root)
+        use = [c for c in owner.calls() if (c.callee or "").endswith("Iterator::filter_map") and len(c.args) == 2 and canon(owner, c.args[1]).startswith("closure{")]
+        if not rep.check(owner is not None and len(use) == 1 and "Option<" in site.locals[0]["ty"], R, "anchor:directive-pass-iterator",
+                         "the directive closure %s is not the argument of a single Iterator::filter_map" % short(site.npath)):
+            return
+        src = canon(owner, use[0].args[0])
+        m = _tokens_source_ok(prog, pf, owner, src)
+        rep.check(bool(m) and not (m and m.group(1)), R, "directive-pass-over-all-tokens",
+                  "the directive pass iterates %s instead of every (index, token) of the token slice" % src, instance={"iterates": "tokens.iter().enumerate().filter_map(..)"})
+        # the produced lines must reach consolidate_pass_lines: filter_map -> collect -> (return ->) consolidate_pass_lines
+        fm = "filter_map(%s," % src
+        reach = False
+        if owner.npath == pf.npath:
+            reach = any(c.callee == P + "consolidate_pass_lines" and fm in canon(pf, c.args[1]) for c in pf.calls())
+        else:
+            rets = [canon(owner, {"k": "move", "place": {"l": 0, "p": []}})] if True else []
+            reach = any(fm in r and "collect(" in r for r in rets) and \
+                any(c.callee == P + "consolidate_pass_lines" and owner.npath.split("::")[-1] + "(" in canon(pf, c.args[1]) for c in pf.calls())
+        rep.check(reach, R, "directive-lines-reach-consolidate", "the lines produced by %s are not handed to consolidate_pass_lines" % short(site.npath))
+        try:
+            tb = Table(prog, site, inline=1)
+        except TooComplex as e:
+            rep.fail(R, "directive-pass-table", "one step of the directive pass is not a loop-free classifier: %s" % e)
+            return
+        rows = []
+        for (cons, res), calls in zip(tb.rows, tb.calls):
+            r = render(res)
+            rows.append((cons, [r] if r.startswith("Some(LocalLogicalLine(") else ([] if r == "None" else ["?" + r])))
+        where = site
+    else:
+        pushes = [c for c in site.calls() if c.callee == "alloc::vec::Vec::push" and "LocalLogicalLine" in site.locals[c.args[1]["place"]["l"]]["ty"]]
+        loops = [(h, L) for h, L in site.loops().items() if any(c.bb in L for c in pushes)]
+        loops.sort(key=lambda x: len(x[1]))
+        if not rep.check(bool(pushes) and bool(loops), R, "anchor:directive-pass", "%s has no loop that pushes LocalLogicalLine values for directive tokens" % short(site.npath)):
+            return
+        h, L = loops[0]
+        nx = [c for c in site.calls() if c.bb == h and (c.callee or "").endswith("Iterator::next")]
+        if not rep.check(len(nx) == 1, R, "anchor:directive-pass-iterator", "the directive pass is not driven by a single Iterator::next"):
+            return
+        src = canon(site, nx[0].args[0])
+        m = _tokens_source_ok(prog, pf, site, src)
+        rep.check(bool(m), R, "directive-pass-over-all-tokens", "the directive pass iterates %s instead of every (index, token) of the token slice (optionally filtered by `!attributed_directives.contains(index)`)" % src,
+                  instance={"iterates": "tokens.iter().enumerate()" + (".filter(!attributed)" if m and m.group(1) else "")})
+        if site.npath != pf.npath:
+            reach = any(c.callee == P + "consolidate_pass_lines" and site.npath.split("::")[-1] + "(" in canon(pf, c.args[1]) for c in pf.calls())
+            rep.check(reach, R, "directive-lines-reach-consolidate", "the lines produced by %s are not handed to consolidate_pass_lines" % short(site.npath))
+        if m and m.group(1):
+            filtered = True
+            fl = [b for b in prog.closures_of(site.npath) if any(c.callee == "std::collections::hash::set::HashSet::contains" for c in b.calls())]
+            ok = len(fl) == 1
+            if ok:
+                t = Table(prog, fl[0])
+                ok = all((res.kind == "sym" and str(res.a).startswith("!")) or (res.kind == "const") for _, res in t.rows) and len(t.rows) == 1
+            rep.check(ok, R, "directive-filter=!attributed", "%s no longer filters the directive pass by `!attributed_directives.contains(index)`" % short(site.npath))
+        sw = nx[0].t["target"]
+        tt = site.blocks[sw]["term"]
+        some = ([tb_ for v, tb_ in tt["targets"] if v == 1] or [tt["otherwise"]])[0]
+        try:
+            tb = Table(prog, site, start=some, stop={h}, inline=1)
+        except TooComplex as e:
+            rep.fail(R, "directive-pass-table", "one iteration of the directive pass is not a loop-free classifier: %s" % e)
+            return
+        rows = []
+        for (cons, _res), calls in zip(tb.rows, tb.calls):
+            rows.append((cons, [a[-1] for n, a in calls if n == "alloc::vec::Vec::push" and a and a[-1].startswith("LocalLogicalLine(")]))
+        where = site
     cdk = prog.adts.get(LANG + "ConditionalDirectiveKind")
     allk = {v["name"] for v in cdk["variants"]} if cdk else set()
     bad = []
     seen = {"CompilerDirective": 0, "ConditionalDirective": set(), "other": 0}
-    for (cons, _res), calls in zip(tb.rows, tb.calls):
-        tty = [c for c in cons if c[1].endswith(".token_type") or c[1].endswith("get_token_type(" ) or "token_type" in c[1].split("@")[-1]]
+    for cons, ps in rows:
         kind = None
         for c in cons:
             if c[0] == "is" and c[2] in ("CompilerDirective", "ConditionalDirective") and "@ConditionalDirective" not in c[1]:
@@ -148,7 +225,6 @@ def directive_pass_table(prog, rep, R, pf):
         conds = [(c[1], c[2]) for c in cons if c[0] == "cond"]
         attributed = [v for k, v in conds if k.startswith("contains(") or "contains(" in k]
         other = [k for k, v in conds if "contains(" not in k]
-        ps = [a for n, a in calls if n == "alloc::vec::Vec::push" and a and a[-1].startswith("LocalLogicalLine(")]
         if other:
             bad.append(("an additional condition decides: %s" % other[:2], kind, sub))
             continue
@@ -158,9 +234,9 @@ def directive_pass_table(prog, rep, R, pf):
             continue
         if kind in ("CompilerDirective", "ConditionalDirective"):
             # (the `vec![token_index]` field is initialised through a raw box in MIR: its element is not visible to the table)
-            okp = len(ps) == 1 and ps[0][-1].rstrip(")").endswith(kind)
+            okp = len(ps) == 1 and ps[0].rstrip(")").endswith(kind)
             if not okp:
-                bad.append(("no line / wrong line: %s" % [x[-1][-60:] for x in ps], kind, sub))
+                bad.append(("no line / wrong line: %s" % [x[-60:] for x in ps], kind, sub))
             if kind == "CompilerDirective":
                 seen["CompilerDirective"] += 1
             else:
@@ -173,7 +249,7 @@ def directive_pass_table(prog, rep, R, pf):
     rep.check(not bad and complete, R, "directive-pass-table",
               "one step of parse_file's directive pass deviates from `CompilerDirective / every ConditionalDirective kind -> exactly one line of its own type with this token; other tokens -> none; only "
               "`attributed_directives.contains(index)` may skip`: %s%s" % (bad[:3], "" if complete else "; kinds covered: %s" % {k: (sorted(v) if isinstance(v, set) else v) for k, v in seen.items()}),
-              where="%s:%d" % (pf.file, pf.line), instance={"paths": len(tb.rows), "conditional_kinds_covered": sorted(seen["ConditionalDirective"]), "deviations": [str(x) for x in bad[:3]]})
+              where="%s:%d" % (where.file, where.line), instance={"site": short(site.npath), "paths": len(rows), "conditional_kinds_covered": sorted(seen["ConditionalDirective"]), "deviations": [str(x) for x in bad[:3]]})
 
 
 def check_c14(prog, rep, tier, cfg):
